@@ -201,10 +201,20 @@ def k2_precedence(rep: Report, tier: str) -> None:
         o = Options()
         gval = c.bool("global_value")
         o.warn_no_return = gval  # type: ignore[assignment]
+        g2 = c.bool("global_value2")
+        o.warn_return_any = g2  # type: ignore[assignment]
         vals = {}
+        vals2 = {}
         for i, sec in enumerate(picks):
-            vals[sec] = c.bool(f"value[{sec}]")
-            o.per_module_options[sec] = {"warn_no_return": vals[sec]}
+            which = c.choose(f"sets[{sec}]", 3)  # 0: first option, 1: second, 2: both
+            d: dict = {}
+            if which in (0, 2):
+                vals[sec] = c.bool(f"value[{sec}]")
+                d["warn_no_return"] = vals[sec]
+            if which in (1, 2):
+                vals2[sec] = c.bool(f"value2[{sec}]")
+                d["warn_return_any"] = vals2[sec]
+            o.per_module_options[sec] = d
         # run the real resolution (methods re-read from source)
         o.build_per_module_cache = lambda: K["Options.build_per_module_cache"](o)  # type: ignore[method-assign]
         o.clone_for_module = lambda m: K["Options.clone_for_module"](o, m)  # type: ignore[method-assign]
@@ -212,24 +222,29 @@ def k2_precedence(rep: Report, tier: str) -> None:
         got = resolved.warn_no_return
         n["p"] += 1
         # documented order: concrete > unstructured (later wins) > structured (more specific wins) > global
-        want: Any = gval
         structured = [s for s in picks if s.endswith(".*") and "*" not in s[:-1]]
-        best = None
-        for s in structured:
-            base = s[:-2]
-            if mod == base or mod.startswith(base + "."):
-                if best is None or len(base) > len(best[:-2]):
-                    best = s
-        if best is not None:
-            want = vals[best]
-        for s in picks:  # file order
-            if "*" in s[:-1] and o.compile_glob(s).match(mod):
-                want = vals[s]
-        if mod in picks:
-            want = vals[mod]
-        ok = c.check(symx.to_z3bool(got) == symx.to_z3bool(want), "resolved value = documented winner")
-        if not ok and c.cex:
-            found.setdefault(f"precedence: sections {picks} module {mod}: resolved value is not the documented winner", (picks, mod, c.cex[-1].model))
+
+        def winner(values: dict, glob: Any) -> Any:
+            want: Any = glob
+            best = None
+            for s in structured:
+                base = s[:-2]
+                if s in values and (mod == base or mod.startswith(base + ".")):
+                    if best is None or len(base) > len(best[:-2]):
+                        best = s
+            if best is not None:
+                want = values[best]
+            for s in picks:  # file order
+                if s in values and "*" in s[:-1] and o.compile_glob(s).match(mod):
+                    want = values[s]
+            if mod in picks and mod in values:
+                want = values[mod]
+            return want
+
+        for label, gotv, values, glob in (("warn_no_return", got, vals, gval), ("warn_return_any", resolved.warn_return_any, vals2, g2)):
+            ok = c.check(symx.to_z3bool(gotv) == symx.to_z3bool(winner(values, glob)), f"resolved {label} = documented winner")
+            if not ok and c.cex:
+                found.setdefault(f"precedence: sections {picks} module {mod}: resolved value is not the documented winner", (picks, mod, c.cex[-1].model))
         # unused-section report: a section is reported unused iff it did not contribute
         unused = o.get_unused_configs()
         for s in picks:
@@ -261,10 +276,16 @@ def replay_precedence(picks: list, mod: str, m: dict):
                 os.makedirs(cur, exist_ok=True)
                 open(os.path.join(cur, "__init__.py"), "w").close()
             with open(os.path.join(cur, parts[-1] + ".py"), "w") as f:
-                f.write("def f(x: int) -> int:\n    if x:\n        return 1\n")  # missing return: reported iff warn_no_return
-            ini = "[mypy]\nwarn_no_return = %s\n" % m.get("global_value", True)
+                # missing return: reported iff warn_no_return; returning Any: reported iff warn_return_any
+                f.write("from typing import Any\ndef f(x: int) -> int:\n    if x:\n        return 1\ndef g(x: Any) -> int:\n    return x\n")
+            ini = "[mypy]\nwarn_no_return = %s\nwarn_return_any = %s\n" % (m.get("global_value", True), m.get("global_value2", True))
             for s in picks:
-                ini += f"[mypy-{s}]\nwarn_no_return = {m.get(f'value[{s}]', True)}\n"
+                ini += f"[mypy-{s}]\n"
+                which = m.get(f"sets[{s}]", 2)
+                if which in (0, 2):
+                    ini += f"warn_no_return = {m.get(f'value[{s}]', True)}\n"
+                if which in (1, 2):
+                    ini += f"warn_return_any = {m.get(f'value2[{s}]', True)}\n"
             with open(os.path.join(work, "mypy.ini"), "w") as f:
                 f.write(ini)
             shutil.copy(os.path.join(work, "mypy.ini"), d)
@@ -272,13 +293,15 @@ def replay_precedence(picks: list, mod: str, m: dict):
             env.pop("PYTHONPATH", None)
             p = subprocess.run([sys.executable, "-m", "mypy", "--no-error-summary", "--no-incremental", "--cache-dir=" + os.devnull, "-m", mod], cwd=work, capture_output=True, text=True, env=env, timeout=300)
             got = "Missing return statement" in p.stdout
+            got2 = "Returning Any" in p.stdout
         finally:
             shutil.rmtree(work, ignore_errors=True)
         # documented winner
         want = m.get("global_value", True)
         best = None
+        sets1 = lambda s_: m.get(f"sets[{s_}]", 2) in (0, 2)  # noqa: E731
         for s in picks:
-            if s.endswith(".*") and "*" not in s[:-1]:
+            if s.endswith(".*") and "*" not in s[:-1] and sets1(s):
                 base = s[:-2]
                 if (mod == base or mod.startswith(base + ".")) and (best is None or len(base) > len(best) - 2):
                     best = s
@@ -287,13 +310,101 @@ def replay_precedence(picks: list, mod: str, m: dict):
         from mypy.options import Options
 
         for s in picks:
-            if "*" in s[:-1] and Options().compile_glob(s).match(mod):
+            if "*" in s[:-1] and sets1(s) and Options().compile_glob(s).match(mod):
                 want = m.get(f"value[{s}]", True)
-        if mod in picks:
+        if mod in picks and sets1(mod):
             want = m.get(f"value[{mod}]", True)
-        return bool(got) != bool(want), f"mypy.ini:\n{ini}\nmodule {mod}: warn_no_return effective={got}, documented winner says {want}"
+        # second option, same documented rule
+        want2 = m.get("global_value2", True)
+        sets2 = lambda s_: m.get(f"sets[{s_}]", 2) in (1, 2)  # noqa: E731
+        best2 = None
+        for s in picks:
+            if s.endswith(".*") and "*" not in s[:-1] and sets2(s):
+                base = s[:-2]
+                if (mod == base or mod.startswith(base + ".")) and (best2 is None or len(base) > len(best2) - 2):
+                    best2 = s
+        if best2:
+            want2 = m.get(f"value2[{best2}]", True)
+        for s in picks:
+            if "*" in s[:-1] and sets2(s) and Options().compile_glob(s).match(mod):
+                want2 = m.get(f"value2[{s}]", True)
+        if mod in picks and sets2(mod):
+            want2 = m.get(f"value2[{mod}]", True)
+        bad = bool(got) != bool(want) or bool(got2) != bool(want2)
+        return bad, f"mypy.ini:\n{ini}\nmodule {mod}: warn_no_return effective={got} (documented winner {want}), warn_return_any effective={got2} (documented winner {want2})"
 
     return replay
+
+
+def k4_toml_overrides(rep: Report) -> None:
+    """[[tool.mypy.overrides]] tables are flattened to the per-module sections an equivalent ini
+    file has: module m gets exactly the keys of the tables that list m (later tables adding keys)."""
+    import copy
+
+    from mypy.config_parser import ConfigTOMLValueError
+
+    K = Kernel("mypy.config_parser", ["destructure_overrides"], closure=False)
+    rep.kernels_from(K)
+    fn = K["destructure_overrides"]
+    mods = ["a", "b", "c.*"]
+    keys = ["k1", "k2"]
+    ctx = Ctx()
+    found: dict[str, tuple] = {}
+    n = {"p": 0}
+
+    def body(c: Ctx) -> None:
+        tables = []
+        for t in range(2):
+            msel = c.choose(f"modules{t}", 7) + 1  # non-empty subset of mods
+            ml = [mods[i] for i in range(3) if (msel >> i) & 1]
+            ksel = c.choose(f"keys{t}", 3) + 1
+            tab: dict = {"module": ml if (len(ml) > 1 or c.choose(f"aslist{t}", 2)) else ml[0]}
+            for i, k in enumerate(keys):
+                if (ksel >> i) & 1:
+                    tab[k] = f"v{t}{k}"
+            tables.append(tab)
+        data = {"mypy": {"overrides": tables, "strict": True}}
+        try:
+            res = fn(copy.deepcopy(data))
+        except ConfigTOMLValueError:
+            conflict = any(k in tables[0] and k in tables[1] and set(_ml(tables[0])) & set(_ml(tables[1])) for k in keys)
+            c.check(conflict, "conflict error only for a key set twice for one module")
+            return
+        n["p"] += 1
+        for m_ in mods:
+            want: dict = {}
+            for tab in tables:
+                if m_ in _ml(tab):
+                    want.update({k: v for k, v in tab.items() if k != "module"})
+            got = res.get(f"mypy-{m_}")
+            c.stats["assert_queries"] += 1
+            if (got or {}) == want and (got is not None) == any(m_ in _ml(t_) for t_ in tables):
+                c.stats["discharged"] += 1
+            else:
+                c.stats["refuted"] += 1
+                found.setdefault("pyproject.toml overrides: a module's section differs from the equivalent ini sections", (tables, m_, got, want))
+
+    def _ml(tab: dict) -> list:
+        return tab["module"] if isinstance(tab["module"], list) else [tab["module"]]
+
+    ctx.explore(body)
+    rep.add_ctx("K4 pyproject.toml overrides flattening", ctx, flattened=n["p"])
+    rep.twin("K4 reached", n["p"] > 0)
+    for key, (tables, m_, got, want) in found.items():
+        rep.sample({"kernel": "K4", "tables": tables, "module": m_, "got": got, "want": want})
+
+        def replay(d: str, tables: Any = tables, m_: str = m_, want: Any = want) -> tuple[bool, str]:
+            import copy as _c
+
+            from mypy.config_parser import destructure_overrides
+
+            res = destructure_overrides({"mypy": {"overrides": _c.deepcopy(tables)}})
+            got2 = res.get(f"mypy-{m_}") or {}
+            with open(os.path.join(d, "replay.py"), "w") as f:
+                f.write(f"from mypy.config_parser import destructure_overrides\nprint(destructure_overrides({{'mypy': {{'overrides': {tables!r}}}}}))\n# expected section mypy-{m_}: {want}\n")
+            return got2 != want, f"tables {tables}: section for {m_} is {got2}, an equivalent ini file gives {want}"
+
+        rep.candidate(key, f"override tables {tables}: module {m_} gets {got} instead of {want}", {"tables": tables}, replay)
 
 
 def main(args: Any) -> int:
@@ -302,7 +413,8 @@ def main(args: Any) -> int:
 
     rep.bounds += [
         "K1: all unstructured patterns of <= 3 (quick) / 4 (thorough) components over {a, b, *}; module names = all dotted names over [a-c_]+ of ANY length",
-        "K2: 2 (quick) / 3 (thorough) sections drawn from a pool of 7 patterns in solver-chosen order, module from a pool of 7 names, probe option warn_no_return with symbolic values",
+        "K2: 2 (quick) / 3 (thorough) sections drawn from a pool of 7 patterns in solver-chosen order, module from a pool of 7 names, two probe options (warn_no_return, warn_return_any), each section setting a solver-chosen subset with symbolic values",
+        "K4: two [[tool.mypy.overrides]] tables, module lists = non-empty subsets of {a, b, c.*}, keys = non-empty subsets of {k1, k2}",
     ]
     rep.assumptions += ["K2 uses the real compile_glob for unstructured membership (glob semantics are K1's subject)", "translation of the emitted regex covers: escaped literals, '.', '.*', groups with '?', '\\Z' (fails closed otherwise)"]
     rep.outside += ["the flag table x configuration source matrix (finite enumeration of whole runs)", "inline '# mypy:' comments and command-line vs config-file precedence"]
@@ -311,6 +423,8 @@ def main(args: Any) -> int:
         k1_glob(rep, args.tier)
     if only is None or "K2" in only:
         k2_precedence(rep, args.tier)
+    if only is None or "K4" in only:
+        k4_toml_overrides(rep)
     return rep.finish()
 
 
